@@ -196,8 +196,8 @@ def introns_span(k, strand):
     return fn
 
 
-def interval_forms(k, a, b, strand, which):
-    """interval conversions agree with the point forms"""
+def interval_forms(k, a, b, strand, which, rs=PLUS):
+    """interval conversions agree with the point forms, for either relative strand"""
 
     def fn(**kw):
         ex, cds, tx = build(k, a, b, strand, kw)
@@ -209,19 +209,22 @@ def interval_forms(k, a, b, strand, which):
         n = total_len(src)
         valid = AND(0 <= x, x < y, y <= n)
         try:
-            res = conv(x, y, PLUS)
+            res = conv(x, y, rs)
         except REFUSE:
             return NOT(valid)
         if not valid:
             return x == y  # empty request answered
         rb = blocks_of(res)
-        conds = [res.strand is strand, len(res) == y - x,
-                 OR(NOT(AND(0 <= i, i < y - x)), walk_pos(rb, strand, i) == walk_pos(src, strand, x + i))]
+        exp_strand = strand if rs is PLUS else strand.reverse()
+        # i-th base of the result (5'->3' on ITS strand) = base x+i of the source walk (relative plus) / base y-1-i (relative minus)
+        j = (x + i) if rs is PLUS else (y - 1 - i)
+        conds = [res.strand is exp_strand, len(res) == y - x,
+                 OR(NOT(AND(0 <= i, i < y - x)), walk_pos(rb, exp_strand, i) == walk_pos(src, strand, j))]
         # back-conversion of the chromosome span covers [x, y)
-        back = tx.sequence_interval_to_transcript(res.start, res.end, strand) if which == "tx2seq" else \
-            tx.sequence_interval_to_cds(res.start, res.end, strand)
+        back = tx.sequence_interval_to_transcript(res.start, res.end, exp_strand) if which == "tx2seq" else \
+            tx.sequence_interval_to_cds(res.start, res.end, exp_strand)
         bb = blocks_of(back)
-        conds.append(AND(bb[0][0] == x, bb[-1][1] == y, back.strand is PLUS))
+        conds.append(AND(bb[0][0] == x, bb[-1][1] == y, back.strand is rs))
         return AND(*conds)
 
     return fn
@@ -302,6 +305,11 @@ def obligations(tier):
                             out.append(Obl("interval_%s_%s" % (which, tg), interval_forms(k, a, b, strand, which),
                                            dict(base, x=int, y=int, i=int), pre, budget=cost * 12 + 60, cost=cost * 2,
                                            desc="interval form (%s) equals the point-wise walk and converts back to [x,y)" % which,
+                                           bounds=bnd, examples=[_example(k, a, b, x=0, y=2, i=1)]))
+                            out.append(Obl("interval_%s_relminus_%s" % (which, tg), interval_forms(k, a, b, strand, which, MINUS),
+                                           dict(base, x=int, y=int, i=int), pre, budget=cost * 12 + 60, cost=cost * 2,
+                                           desc="interval form (%s) with relative strand MINUS: result on the opposite strand, i-th base = base y-1-i of the "
+                                                "point-wise walk (whole-length intervals included), converts back to [x,y) on the relative minus strand" % which,
                                            bounds=bnd, examples=[_example(k, a, b, x=0, y=2, i=1)]))
             params = dict(layout_params(k))
             params["p"] = int
